@@ -498,8 +498,11 @@ class BinaryProperty(Property):
 
     def clean(self, value, allow_custom=False):
         try:
-            base64.b64decode(value)
-        except (binascii.Error, TypeError):
+            # Tolerate whitespace (wrapped lines), but nothing else outside
+            # of the base64 alphabet; b64decode() silently skips such
+            # characters unless told to validate.
+            base64.b64decode("".join(value.split()), validate=True)
+        except (binascii.Error, TypeError, AttributeError):
             raise ValueError("must contain a base64 encoded string")
         return value, False
 
